@@ -5,7 +5,8 @@ import gen
 
 ID = "C18"
 THEOREMS = ["C18_get_insert", "C18_insert_returns_get", "C18_insert_frame", "C18_insert_frame_fields",
-            "C18_remove_returns_get", "C18_through_scalar", "C18_frame_nonvacuous"]
+            "C18_remove_returns_get", "C18_through_scalar", "C18_remove_frame_fields", "C18_remove_nothing_unchanged",
+            "C18_frame_nonvacuous"]
 IMPORTS = "From Coq Require Import List ZArith String.\nFrom VRL Require Import Base.Bytes Base.Value Base.Lit Model.ValueCrud Corr.C18.\nLocal Open Scope string_scope."
 MANIFEST = {
     "level": "proof",
